@@ -386,8 +386,9 @@ func dimacsText(r *world.Rng, n int, cl [][]int, lineBased bool) string {
 		b.WriteString("c " + r.PickS("generated", "p cnf 9 9", "", "0 1 -2", "c") + "\n")
 	}
 	fmt.Fprintf(&b, "p cnf %d %d%s", n, len(cl), nl())
+	lineStart := true
 	for i, c := range cl {
-		if r.Bool(0.08) {
+		if lineStart && r.Bool(0.08) {
 			b.WriteString("c mid " + r.PickS("comment", "1 2 0", "") + "\n")
 		}
 		for _, l := range c {
@@ -399,8 +400,10 @@ func dimacsText(r *world.Rng, n int, cl [][]int, lineBased bool) string {
 			b.WriteString(r.PickS("\n", "\n", "", " ", "\n\n", " \n", "\r\n"))
 		} else if lineBased || r.Bool(0.75) {
 			b.WriteString(nl())
+			lineStart = true
 		} else {
 			b.WriteString(r.PickS(" ", "  ", "\t"))
+			lineStart = false
 		}
 	}
 	return b.String()
@@ -653,10 +656,15 @@ func genC03(r *world.Rng, w *world.World, big bool) {
 		}
 		cs = keep
 	}
+	if route != "opb" {
+		// the cost function may only mention variables the problem has: make the
+		// variable count unambiguous by mentioning the top variable in a non-trivial clause
+		cs = append(cs, topVarClause(r, n))
+	}
 	t := world.TaskSpec{Kind: "opt", N: n, Cons: cs, Route: route, Entry: "all", Cap: capacity(r), Delays: delays(r)}
 	if !r.Bool(0.1) {
 		t.Cost = randCost(r, n, r.Pick(1, 4, 9))
-		if route == "opb" && r.Bool(0.3) {
+		if route == "opb" && r.Bool(0.3) && w.Prop == "C03" {
 			// negative coefficients are only expressible through the OPB syntax
 			if t.Cost.Coefs == nil {
 				t.Cost.Coefs = make([]int, len(t.Cost.Lits))
@@ -894,6 +902,9 @@ func genC14(r *world.Rng, w *world.World, big bool) {
 		t.Kind = "opt"
 		t.Entry = "cp-both"
 		t.Cost = randCost(r, n, r.Pick(1, 4))
+		if route != "opb" {
+			t.Cons = append(t.Cons, topVarClause(r, n))
+		}
 	}
 	if route == "opb" {
 		t.Text = opbText(r, n, cs, t.Cost)
@@ -921,6 +932,9 @@ func genC20(r *world.Rng, w *world.World, big bool) {
 					cs[i].Op = ">="
 				}
 			}
+		}
+		if route != "opb" {
+			cs = append(cs, topVarClause(r, n))
 		}
 		t = world.TaskSpec{Kind: "opt", N: n, Cons: cs, Route: route, Entry: "optimal-chan"}
 		if !r.Bool(0.1) {
@@ -982,7 +996,7 @@ func genC16(r *world.Rng, w *world.World, big bool) {
 			n, cl := pigeon(h+1, h)
 			t = world.TaskSpec{Kind: "cnf", N: n, Clauses: cl, Route: "slicenb"}
 		case 5: // optimisation
-			sub := world.World{}
+			sub := world.World{Prop: "C16"}
 			genC03(r, &sub, big)
 			t = sub.Tasks[0]
 			t.Entry = r.PickS("optimal-nil", "optimal-chan", "minimize")
